@@ -115,7 +115,19 @@ func genC16(r *core.Rand, p *core.Plan) {
 	if r.Chance(1, 3) {
 		backendFail = int64(r.Range(1, 12))
 	}
-	p.Ops = append(p.Ops, core.Op{K: "createwallet", A: []int64{unlock, bdayBack, interrupts, int64(r.Range(1, 400)), int64(r.Intn(2)), backendFail}})
+	dbFault := int64(0)
+	if backendFail == 0 && r.Chance(1, 4) {
+		dbFault = int64(r.Range(3, 260))
+	}
+	p.Ops = append(p.Ops, core.Op{K: "createwallet", A: []int64{unlock, bdayBack, interrupts, int64(r.Range(1, 400)), int64(r.Intn(2)), backendFail, dbFault}})
+	if r.Chance(1, 3) {
+		// a caller asks for addresses while the recovery is still running or
+		// waiting for its retry
+		for k := 0; k < r.Range(1, 3); k++ {
+			p.Ops = append(p.Ops, core.Op{K: "clock", A: []int64{int64(r.Range(1, 4))}})
+			p.Ops = append(p.Ops, core.Op{K: "newaddr", A: []int64{int64(r.Intn(4)), 0, int64(r.Intn(2))}})
+		}
+	}
 	p.Ops = append(p.Ops, core.Op{K: "sync"})
 	// Resumed recovery: the wallet is stopped, the chain grows (payments keep
 	// obeying the look-ahead condition relative to everything paid so far),
@@ -360,10 +372,26 @@ func (rs *runState) createwallet(step int, op core.Op) {
 		x.fail("setup-failed", "create: %v", err)
 		return
 	}
+	if k := int(op.Arg(6)); k > 0 {
+		// the k-th database write after the wallet is opened fails once: it
+		// lands in the initial synchronisation or in a recovery batch, and
+		// the wallet retries in-process
+		x.db.Reset()
+		x.db.Arm(k)
+		env.Count("fault.db-write-during-recovery")
+	}
 	if err := x.open(); err != nil {
+		if injected(err) {
+			// the fault hit wallet.Open itself: open again, as a user would
+			x.db.Reset()
+			if err = x.open(); err == nil {
+				goto opened
+			}
+		}
 		x.fail("setup-failed", "open: %v", err)
 		return
 	}
+opened:
 	interrupts := int(op.Arg(2))
 	if interrupts > 3 {
 		interrupts = 3
